@@ -15,7 +15,7 @@
    events are what reqwest/hyper/tokio deliver, persist is one step by the kernel's rename
    atomicity, a concurrently writing second process is outside the model. *)
 From RM Require Import C09.Grammar C10.Model C16.Model C16.Proofs C16.Rehit C16.Driver C16.Shared C16.SharedProofs C16.SharedProofs2 C16.Refine Gen.C16Ops.
-From RM Require C09.Model C10.Stream C16.Stream C16.StreamProofs C16.StreamInst C16.StreamProofs2 C16.StreamPins C16.StaleFlag C16.Raii C16.RaiiProofs C16.StreamRefine.
+From RM Require C09.Model C10.Stream C16.Stream C16.StreamProofs C16.StreamInst C16.StreamProofs2 C16.StreamPins C16.StaleFlag C16.Raii C16.RaiiProofs C16.StreamRefine C16.LocateSrc Gen.C16Locate.
 Open Scope Z_scope.
 
 Section Statements.
@@ -395,6 +395,24 @@ Theorem c16_shared_new_entry_provenance :
                        cc = cached_form body (url_of T (ms_cl s i)).
 Proof. exact (fun T parse c0 => shared_new_entry_provenance T parse create_ops commit_ops eq_refl eq_refl c0). Qed.
 Print Assumptions c16_shared_new_entry_provenance.
+
+(* ================================================================================================
+   Round 5: the structure of HttpSymbolSupplier::locate_symbols is the source's (translate/c16_locate.py -> Gen/C16Locate.v).
+   [cascades] is TRANSLATED from the pattern of `if !matches!(local_result, Err(SymbolError::NotFound)) { return local_result.map(..) }`
+   (which outcomes of the local lookup — symbol paths, then the cache — go on to the network), [server_loop] from the arms of
+   `match sym { Ok(symbols) => { return Ok(..) } Err(e) => { trace!(..) } }`, [after_loop] from the final `Err(SymbolError::NotFound)`;
+   every other statement of the function is pinned.  Model.locate — what c16_only_notfound_cascades, c16_locate_* and the
+   correspondence run are about — is the function assembled from them: a widened cascade pattern (`Err(_)`) or a loop that does
+   not return at the first Ok makes this theorem fail / the translator abort. *)
+Theorem c16_locate_is_source :
+  RM.Gen.C16Locate.server_loop = RM.Gen.C16Locate.SReturnFirstOk /\ RM.Gen.C16Locate.after_loop = RM.Gen.C16Locate.ANotFound /\
+  forall (T : Type) (parse : bytes -> option (T * option bytes)) (early : bytes -> bool) (p : path) f locals race ss evs,
+    Model.locate T parse early p f locals race ss evs = RM.C16.LocateSrc.locate_src T parse early p f locals race ss evs.
+Proof.
+  split; [reflexivity|]. split; [reflexivity|].
+  intros T parse early p. exact (proj2 (proj2 (RM.C16.LocateSrc.locate_is_source T parse early p))).
+Qed.
+Print Assumptions c16_locate_is_source.
 
 (* ================================================================================================
    Round 5: RAII derived, not stipulated (C16/Raii.v, C16/RaiiProofs.v).
